@@ -633,7 +633,7 @@ def run(ctx):
     evaluate(ctx, 'mutations-small', 'mut', m_small)
     ctx.set_exhaustive('mutations-small', True)
     m_rand = []
-    for _ in range(ctx.budget(220, 6000)):
+    for _ in range(ctx.budget(200, 3500)):
         par = random_graph_spec(rng)
         for fn in MUTATIONS:
             m_rand.append(mutation_spec(rng, fn, par))
@@ -648,7 +648,7 @@ def run(ctx):
                 c_small.append(crossover_spec(rng, fn, permute(rng, par) if k else par, par2=rng.choice(shapes)))
     evaluate(ctx, 'crossovers-small', 'cx', c_small)
     c_rand = []
-    for _ in range(ctx.budget(170, 4000)):
+    for _ in range(ctx.budget(150, 2500)):
         par = random_graph_spec(rng, 8)
         for fn in CROSSOVERS:
             c_rand.append(crossover_spec(rng, fn, par))
@@ -680,8 +680,15 @@ def canary(ctx):
 
 
 def replay(ctx, payload):
+    """uuid4 values (and with them set / hash orders inside GOLEM) differ from run to run, so a
+    recorded call is re-run with its own seed and a few neighbouring seeds"""
     v = payload.get('violation') or payload.get('first_disagreement') or payload
     case = v.get('case') if isinstance(v, dict) else None
     if not case or 'spec' not in case:
         return
-    evaluate(ctx, 'replay', case['kind'], [case['spec']])
+    specs = []
+    for k in range(12):
+        sp = dict(case['spec'])
+        sp['seed'] = sp['seed'] + k
+        specs.append(sp)
+    evaluate(ctx, 'replay', case['kind'], specs)
